@@ -27,14 +27,22 @@ class Git:
     def __init__(self, env, cwd, log=None):
         self.env, self.cwd, self.log = env, str(cwd), log if log is not None else []
 
-    def __call__(self, *args, inp=None, ok=False):
-        self.log.append("git " + " ".join(a if re.fullmatch(r"[\w@%+=:,./^{}~-]+", a) else "'%s'" % a.replace("'", "'\\''") for a in args)
+    def __call__(self, *args, inp=None, ok=False, quiet=False):
+        if not quiet:
+            self.log.append("git " + " ".join(a if re.fullmatch(r"[\w@%+=:,./^{}~-]+", a) else "'%s'" % a.replace("'", "'\\''") for a in args)
                         + ("  <<< %r" % inp.decode(errors="replace") if inp else ""))
         p = subprocess.run(["git", "-c", "advice.nestedTag=false", "-c", "advice.detachedHead=false"] + list(args), cwd=self.cwd, env=self.env,
                            input=inp, stdout=subprocess.PIPE, stderr=subprocess.PIPE, timeout=120)
+        self.err = p.stderr.decode(errors="replace").strip()
         if p.returncode != 0 and not ok:
-            self.log.append("  # failed (%d): %s" % (p.returncode, p.stderr.decode(errors="replace").strip()[:200]))
+            self.log.append("  # failed (%d): %s" % (p.returncode, self.err[:200]))
         return p.returncode, p.stdout
+
+    def must(self, *args, inp=None):
+        rc, out = self(*args, inp=inp, quiet=True)
+        if rc != 0:
+            raise RuntimeError("git %s failed (%d) in %s: %s" % (" ".join(args), rc, self.cwd, self.err[:500]))
+        return out
 
 
 # ------------------------------------------------------------------ independent semver (semver.org 2.0.0)
@@ -92,7 +100,7 @@ BAD_VERSIONS = [b"", b"abc", b"v", b"v3.", b"v3.1.0.0", b"v3.1.0-", b"v3.1.0-01"
                 b"v3.1.0_1", b"V3.1.0", b"vv3.1.0", b"v-3.1.0", b"v3.1.0-rc.1+", b"v3..0", b"3.1.0.", b"v3.1.0+a+b", b"v3.18446744073709551616.0"]
 COERCED_VERSIONS = [b"v3", b"v3.1", b"3", b"4.2", b"v03.1.0", b"v3.01.00", b"v3-rc.1", b"v3.2-beta", b"v3+meta", b"v0", b"v3.0.18446744073709551615"]
 FLAGS = [None, None, ["--dry-run=true"], ["--dry-run=false"], ["--dry-run=false"], ["--dry-run=false"], ["--dry-run"], ["--dry-run=0"], ["--dry-run=1"]]
-DIRTY = ["clean", "clean", "clean", "clean", "clean", "untracked", "modified", "staged_new", "staged_mod", "deleted", "ignored_only", "emptydir",
+DIRTY = ["clean"] * 14 + ["untracked", "modified", "staged_new", "staged_mod", "deleted", "ignored_only", "emptydir",
          "mode", "untracked_subdir", "env_uncommitted"]
 
 
@@ -210,9 +218,10 @@ def build_base(ctx, env, repo, path):
         (path / ".gitignore").write_text("ignored.tmp\n")
         for k in range(repo["commits"]):
             (path / "a.txt").write_text("content %d\n" % k)
+            g.log.append("echo 'content %d' > a.txt%s" % (k, "; echo ignored.tmp > .gitignore" if k == 0 else ""))
             g("add", ".")
             g("commit", "-q", "-m", "c%d" % k)
-            shas.append(g("rev-parse", "HEAD")[1].decode().strip())
+            shas.append(g("rev-parse", "HEAD", quiet=True)[1].decode().strip())
     annotated = []
     packed_at = len(repo["tags"]) // 2 if repo["packed"] == "mixed" else None
     for idx, t in enumerate(repo["tags"]):
@@ -239,9 +248,9 @@ def build_base(ctx, env, repo, path):
             if rc == 0:
                 g("update-ref", "refs/tags/" + name, out.decode().strip())
         elif kind == "blob":
-            g("tag", name, g("rev-parse", sha + ":a.txt")[1].decode().strip())
+            g("tag", name, g("rev-parse", sha + ":a.txt", quiet=True)[1].decode().strip())
         elif kind == "tree":
-            g("tag", name, g("rev-parse", sha + "^{tree}")[1].decode().strip())
+            g("tag", name, g("rev-parse", sha + "^{tree}", quiet=True)[1].decode().strip())
     if repo["branches"] and shas:
         g("branch", "dev", shas[0])
         g("update-ref", "refs/remotes/origin/main", shas[-1])
@@ -259,7 +268,7 @@ def prepare_run(ctx, env, base, rdir, run):
     rdir.mkdir(parents=True)
     subprocess.run(["cp", "-a", str(base), str(repo)], check=True)
     g = Git(env, repo)
-    unborn = g("rev-parse", "-q", "--verify", "HEAD", ok=True)[0] != 0
+    unborn = g("rev-parse", "-q", "--verify", "HEAD", ok=True, quiet=True)[0] != 0
     line = b"VERSION=" + run["version"] + b"\n"
     if run["env"] == "tracked" and not unborn:
         if run["dirty"] == "env_uncommitted":
@@ -316,23 +325,38 @@ def snapshot(root):
 
 
 def observe(env, repo):
+    """state of the repository as the git CLI reports it; {"broken": msg} if git cannot read it"""
+    try:
+        return observe_(env, repo)
+    except RuntimeError as e:
+        return {"broken": str(e), "refs": [], "head": None, "head_sym": "", "status": "", "snap": snapshot(repo), "deref": {}}
+
+
+def observe_(env, repo):
     g = Git(env, repo)
-    rc, out = g("for-each-ref", "--format=%(refname)%00%(objecttype)%00%(objectname)%00%(tag)%00%(symref)")
+    out = g.must("for-each-ref", "--format=%(refname)%00%(objecttype)%00%(objectname)%00%(tag)%00%(symref)")
     refs = []
     for ln in out.split(b"\n"):
         if ln:
             name, typ, obj, tagname, symref = ln.split(b"\x00")
             refs.append({"name": name, "type": typ.decode(), "obj": obj.decode(), "tagname": tagname, "symref": symref.decode()})
     if refs:
-        rc, out = g("cat-file", "--batch-check", inp=b"".join(b"%s^{}\n" % r["obj"].encode() for r in refs))
+        out = g.must("cat-file", "--batch-check", inp=b"".join(b"%s^{}\n" % r["obj"].encode() for r in refs))
         for r, ln in zip(refs, out.split(b"\n")):
             f = ln.split()
             r["peeled"], r["peeled_type"] = (f[0].decode(), f[1].decode()) if len(f) >= 2 and f[1] != b"missing" else (r["obj"], "?")
     rc, head = g("rev-parse", "-q", "--verify", "HEAD", ok=True)
     head = head.decode().strip() if rc == 0 else None
     symh = g("symbolic-ref", "-q", "HEAD", ok=True)[1].decode().strip()
-    status = g("status", "--porcelain")[1].decode(errors="replace")
-    return {"refs": refs, "head": head, "head_sym": symh, "status": status, "snap": snapshot(repo)}
+    status = g.must("status", "--porcelain").decode(errors="replace")
+    # `git show-ref -d` answers from the peeled values cached in .git/packed-refs
+    rc, out = g("show-ref", "-d", ok=True, quiet=True)
+    deref = {}
+    for ln in out.split(b"\n"):
+        if ln.endswith(b"^{}"):
+            sha, name = ln.split(b" ", 1)
+            deref[name[:-3]] = sha.decode()
+    return {"deref": deref, "refs": refs, "head": head, "head_sym": symh, "status": status, "snap": snapshot(repo)}
 
 
 def run_tool(ctx, env, repo, flag):
@@ -373,8 +397,16 @@ def oracle(run, res):
     rb, ra = refmap(b), refmap(a)
     key = lambda r: (r["type"], r["obj"], r["peeled"], r["tagname"])
     changed = sorted(n for n in set(rb) | set(ra) if n not in rb or n not in ra or key(rb[n]) != key(ra[n]))
+    if b.get("broken"):
+        raise RuntimeError("harness: repository unreadable before the run: " + b["broken"])
+    if a.get("broken"):
+        return ["repository damaged: git cannot read it after the run: " + a["broken"].split(": ", 1)[-1][-200:]], True, False
     if rc not in EXIT:
         errs.append("crash: exit status %d: %s" % (rc, res["stderr_tail"][-300:]))
+    for n in sorted(set(rb) & set(ra)):
+        if n not in changed and b["deref"].get(n) != a["deref"].get(n):
+            errs.append("repository damaged: `git show-ref -d` of the untouched %s changed: %s -> %s (peeled values in .git/packed-refs)" % (
+                n.decode(errors="replace"), b["deref"].get(n), a["deref"].get(n)))
     if (a["head"], a["head_sym"]) != (b["head"], b["head_sym"]):
         errs.append("HEAD changed")
     if a["status"] != b["status"]:
@@ -563,11 +595,16 @@ def check(ctx, only=None):
     if only is not None:
         work = only
     else:
-        nrep = 2600 if ctx.thorough() else 200
+        for old in (VERIF / "replays" / "C20").glob("*.json"):      # stale replays of earlier runs of this check
+            old.unlink()
+        nrep = 2600 if ctx.thorough() else 170
         work = corpus()
         for i in range(nrep):
             repo = gen_repo(ctx.rng, malformed=(i % 8 == 7))
             work.append((repo, gen_runs(ctx.rng, repo, ctx.rng.choice([3, 4, 5]))))
+        witnesses = witness_work(known)
+        wstart = len(work)
+        work += [(repo, runs) for _, _, repo, runs in witnesses]
 
     def one(item):
         idx, (repo, runs) = item
@@ -593,11 +630,25 @@ def check(ctx, only=None):
     terms = [state_terms(res, run)[1] for repo, run, res, _ in flat]
     bad, cerrs = coq_mismatches(ctx, HM, terms, shard=120)
 
+    # ---- witness stream of the known findings: the listed symptom must still appear
+    if only is None:
+        for j, (k, listed, repo, runs) in enumerate(witnesses):
+            res = results[wstart + j][1][0]
+            got = witness_symptom(runs[0], res)
+            if got == listed and re.fullmatch(k["symptom"], got):
+                ctx.known("%s: %s (tags %s, VERSION %s)" % (k["id"], got, [jbytes(t["name"]) for t in repo["tags"]], jbytes(runs[0]["version"])))
+            else:
+                rp = ctx.write_replay("known-finding-changed-%d" % j, {
+                    "what": "known finding %s: listed symptom %r, observed %r - the finding changed or disappeared; update known/C20.json and the guard [small]" % (k["id"], listed, got),
+                    "obligation": "known/C20.json witness stream", "cases": [{"repo": repo_json(repo), "runs": [run_json(runs[0])]}],
+                    "readable": describe(repo, runs[0], res, results[wstart + j][0])})
+                ctx.violation(rp, nofail=True)
+
     # ---- classification
     reported = set()
-    for i in sorted(oracle_fail):
+    for i in sorted(oracle_fail, key=lambda i: (0 if oracle_fail[i][0].startswith(("dry-run", "repository damaged")) else 1, i)):
         sig = re.sub(r"[0-9a-f]{7,}|'[^']*'|\[[^\]]*\]", "_", oracle_fail[i][0])[:60]
-        if sig in reported or len(reported) >= 3:
+        if sig in reported or len(reported) >= 5:
             continue
         reported.add(sig)
         repo, run, res, base_log = flat[i]
@@ -662,6 +713,30 @@ def check(ctx, only=None):
                        assumptions=["the state of a repository before and after a run is what the git CLI (2.39) reports: for-each-ref, cat-file, status --porcelain, plus a hash of every file under the work tree and .git",
                                     "mockery-tools.env is written as a single line VERSION=<v> with <v> free of quotes, blanks, '#', '$' and backslashes (viper/gotenv syntax is not modelled)",
                                     "go-git's Worktree.Status agrees with `git status --porcelain` on the generated work-tree states (checked: the model takes dirty from git status)"])
+
+
+def witness_work(known):
+    """repositories of the known-finding witnesses: (finding id, listed symptom, repo, runs)"""
+    out = []
+    for k in known:
+        for c in k.get("witness", {}).get("cases", []):
+            repo = {"commits": 1, "tags": [{"name": t.encode(), "kind": "light", "at": 0} for t in c["tags"]], "head": "branch",
+                    "packed": "none", "branches": False, "focus": 3, "witness": k["id"]}
+            run = {"version": c["VERSION"].encode(), "flag": [c["flag"]] if c.get("flag") else None, "dirty": "clean", "env": "parent"}
+            out.append((k, c["symptom"], repo, [run]))
+    return out
+
+
+def witness_symptom(run, res):
+    """how the outcome relates to semver.org precedence with unbounded numeric identifiers"""
+    q = sv_parse(run["version"])
+    rb, ra = refmap(res["before"]), refmap(res["after"])
+    changed = set(rb) != set(ra)
+    same = [sv_parse(short(n)) for n in rb if short(n) is not None and sv_parse(short(n)) and q and sv_parse(short(n))[0] == q[0]]
+    newer = q is not None and all(sv_cmp(q, v) > 0 for v in same)
+    if changed:
+        return "ok-tagged" if newer else "tagged-older-than-existing"
+    return "refused-newer" if newer and res["exit"] == 8 else "ok-refused(exit %d)" % res["exit"]
 
 
 def replay(ctx, path):
